@@ -174,6 +174,11 @@ def evaluate(chk, jobs, res, prop):
                               f"it was mapped to, or with another vertex's seq / times / windows", case)
             if m.get("checkmono") == 1 and m.get("ttcheck") != 1:
                 chk.broke("ToTimingsLaws.to_timings_valid", f"episode {e}: check_mono accepts but check_schedule rejects the model's schedule")
+            # the remaining hypotheses of Capstone3.compiled_replay_from_partitioner_contract about the partitioner: template well-formed, supervisor mapped in every partition
+            chk.feat("to_timings:tmpl_ok+sup_covered-accept(extra_ok derived)" if m.get("tmplok") == 1 and m.get("supcov") == 1 else
+                     f"to_timings:tmpl_ok={m.get('tmplok')},sup_covered={m.get('supcov')}")
+            if m.get("checkmono") == 1 and m.get("tmplok") == 1 and m.get("supcov") == 1 and m.get("ttmatch") == 1 and m.get("extraok") != 1:
+                chk.broke("ToTimingsExtra.to_timings_extra_ok", f"episode {e}: check_mono, tmpl_ok and sup_covered accept but extra_ok rejects the schedule")
             if m.get("checkmono") != 1 and m["check"] == 1 and not j.get("starting_step"):
                 chk.feat("to_timings:check_mono-rejects-but-check_schedule-accepts")
         if prop == "C08":
